@@ -292,7 +292,7 @@ func runR095(c *core.Ctx) {
 			t := v.Type()
 			ts := t.String()
 			switch {
-			case name == "customTyperefAdapters":
+			case core.NameOf(v) == "customTyperefAdapters":
 				// the registry: LoadOrStore of immutable adapters keyed by type (R17.6)
 			case strings.Contains(ts, "sync.Pool"):
 				problems = append(problems, name+" is a sync.Pool: objects returned to it carry state into later serializations")
